@@ -73,12 +73,13 @@ Read(cap, k) ==
        LET f == Fill  nhi == hi + f.add  n == Min(cap, nhi - lo) IN
        /\ tpos' = f.tpos /\ ri' = f.ri /\ hi' = nhi /\ rErr' = f.err /\ outTotal' = outTotal + f.add /\ rPass' = f.pass /\ repl' = (repl \/ f.repl)
        /\ lo' = lo + n /\ outpos' = outpos + n
-       /\ lastRead' = [n |-> n, err |-> IF lo + n = nhi THEN f.err ELSE "none"]
+       \* (the pending error comes with the last buffered bytes - as the code does - or from the next call)
+       /\ \E e \in (IF lo + n = nhi THEN (IF n > 0 THEN {f.err, "none"} ELSE {f.err}) ELSE {"none"}) : lastRead' = [n |-> n, err |-> e]
        /\ k = 0
      ELSE IF lo < hi
      THEN LET n == Min(cap, hi - lo) IN
        /\ lo' = lo + n /\ outpos' = outpos + n
-       /\ lastRead' = [n |-> n, err |-> IF lo + n = hi THEN rErr ELSE "none"]
+       /\ \E e \in (IF lo + n = hi THEN (IF n > 0 THEN {rErr, "none"} ELSE {rErr}) ELSE {"none"}) : lastRead' = [n |-> n, err |-> e]
        /\ UNCHANGED <<tpos, ri, hi, rErr, outTotal, rPass, repl>> /\ k = 0
      ELSE IF rErr # "none"
      THEN /\ lastRead' = [n |-> 0, err |-> rErr] /\ UNCHANGED <<tpos, ri, lo, hi, rErr, outTotal, outpos, rPass, repl>> /\ k = 0
